@@ -139,6 +139,12 @@ type Block struct {
 	T      string `json:"t"`      // template name
 	Parent int    `json:"parent"` // index of the block whose root is the parent state, -1 = empty state
 	Ops    []Op   `json:"ops"`
+	// Disk: what happens to the block after its state.Commit: "" = TrieDB().Commit(root) (acknowledged
+	// when it reports success); "fail" = TrieDB().Commit is issued but every write of it returns an
+	// error (saveStates returns false, the block is given up); "skip" = never issued (abandoned fork
+	// block).  Such a state stays in the shared in-memory node database, is never acknowledged and
+	// is not used as a parent; its sibling blocks are.
+	Disk string `json:"disk,omitempty"`
 }
 
 type History struct {
@@ -158,10 +164,24 @@ type History struct {
 //	commit0       Commit(false)
 var finVariants = []string{"", "ir1", "ir0", "fin1", "fin0", "ir-each", "twice", "commit0"}
 
+// sigSuffix labels violations of histories that contain a never-acknowledged sibling state.
+func (h History) sigSuffix() string {
+	for _, b := range h.Blocks {
+		if b.Disk != "" {
+			return ":after-unacked-sibling-" + b.Disk
+		}
+	}
+	return ""
+}
+
 func (h History) name() string {
 	var s []string
 	for _, b := range h.Blocks {
-		s = append(s, fmt.Sprintf("%s<%d", b.T, b.Parent))
+		d := ""
+		if b.Disk != "" {
+			d = "!" + b.Disk
+		}
+		s = append(s, fmt.Sprintf("%s<%d%s", b.T, b.Parent, d))
 	}
 	n := strings.Join(s, ",")
 	if h.Fin != "" {
@@ -273,6 +293,10 @@ func templates(thorough bool) []tmpl {
 				{K: "nonce", A: 2, N: 104}, sl(2, "P2", "V40"), sl(2, "P0", ""), sl(2, "L0", "V40"), sl(2, "L2", "V40")}},
 		)
 	}
+	// control for the sibling dimension: two accounts with the same code and the same storage
+	// contents (=> one code blob, one storage trie, two parents) inside ONE state
+	t = append(t, tmpl{name: "SH", ops: []Op{{K: "nonce", A: 0, N: 111}, {K: "code", A: 0, Code: "c100a"}, sl(0, "K0", "VA"), sl(0, "K1", "VB"),
+		{K: "nonce", A: 1, N: 111}, {K: "code", A: 1, Code: "c100a"}, sl(1, "K0", "VA"), sl(1, "K1", "VB")}})
 	// Durable storage-only accounts (nonce 0, no code, real storage: what every funded-but-silent
 	// account, token binding and escrow account looks like; the balance-keeping account written by
 	// "bal" is one, too) and blocks that merely LOAD them -- no write, no slot of theirs cached --
@@ -614,6 +638,8 @@ type recDB struct {
 	failAt int // the write with this ordinal fails once (-1: none)
 	failed bool
 	iters  int
+	// failAll: every physical write returns an error (a disk commit that fails as a whole)
+	failAll bool
 }
 
 func newRec(scale, failAt int) *recDB {
@@ -621,6 +647,9 @@ func newRec(scale, failAt int) *recDB {
 }
 
 func (d *recDB) phys(e elem) error {
+	if d.failAll {
+		return errInjected
+	}
 	n := d.nphys
 	d.nphys++
 	if n == d.failAt && !d.failed {
@@ -718,6 +747,8 @@ func (b *roBatch) Reset()                { b.n = 0 }
 // ---------------------------------------------------------------------------------------------
 // running a history on the real commit path
 
+const neverAcked = 1 << 30
+
 type trace struct {
 	rec       *recDB
 	roots     []common.Hash // acknowledged root of block i
@@ -780,6 +811,7 @@ func runHistoryEx(h History, scale, failAt, mapVar int, reexec bool) (tr *trace)
 		var cerr error
 		retried := false
 		guard := ""
+		unacked := false
 		p, v, site := fw.Try(func() {
 			// Oracle guard (never a C03 verdict): the block is first executed on a SHADOW state object
 			// that is never committed; what is readable from it must be what the model says (accounts
@@ -815,6 +847,19 @@ func runHistoryEx(h History, scale, failAt, mapVar int, reexec bool) (tr *trace)
 				root = r
 				return live.TrieDB().Commit(r, false)
 			}
+			if blk.Disk != "" {
+				if root, cerr = commitState(st, h.Fin); cerr != nil {
+					return
+				}
+				unacked = true
+				if blk.Disk == "fail" {
+					rec.failAll = true
+					err := live.TrieDB().Commit(root, false)
+					rec.failAll = false
+					unacked = err != nil // nothing had to be written: the commit succeeded after all
+				}
+				return
+			}
 			cerr = commit()
 			if cerr != nil && errors.Is(cerr, errInjected) {
 				retried = true
@@ -842,7 +887,11 @@ func runHistoryEx(h History, scale, failAt, mapVar int, reexec bool) (tr *trace)
 		}
 		tr.roots = append(tr.roots, root)
 		tr.snaps = append(tr.snaps, snap)
-		tr.ack = append(tr.ack, len(rec.log))
+		if unacked {
+			tr.ack = append(tr.ack, neverAcked)
+		} else {
+			tr.ack = append(tr.ack, len(rec.log))
+		}
 		tr.retried = append(tr.retried, retried)
 	}
 	return tr
@@ -1175,7 +1224,7 @@ func checkPrefixes(h History, scale, mapVar int, s *stats) (vs []viol, tr *trace
 				if tr.ack[bi] < p {
 					older = fmt.Sprintf(" (durable since write %d; prefix %d is inside/after the commit of block %d)", tr.ack[bi], p, log[p-1].block)
 				}
-				add(viol{"C03:" + kind, "acknowledged-root",
+				add(viol{"C03:" + kind + h.sigSuffix(), "acknowledged-root",
 					fmt.Sprintf("history %s scale %d: after %d of %d writes root %x of block %d is acknowledged but %s: %s%s",
 						h.name(), scale, p, len(log), root[:6], bi, f.kind, f.detail, older), c})
 			default:
@@ -1183,7 +1232,7 @@ func checkPrefixes(h History, scale, mapVar int, s *stats) (vs []viol, tr *trace
 				if strings.HasPrefix(f.kind, "differs:") {
 					kind = "inflight-root-" + f.kind
 				}
-				add(viol{"C03:" + kind, "in-flight-root",
+				add(viol{"C03:" + kind + h.sigSuffix(), "in-flight-root",
 					fmt.Sprintf("history %s scale %d: after %d of %d writes the top node of root %x (block %d, not yet acknowledged) is on disk but %s: %s",
 						h.name(), scale, p, len(log), root[:6], bi, f.kind, f.detail), c})
 			}
@@ -1221,6 +1270,9 @@ func checkFaults(h History, scale, mapVar, nwrites int, baseErr string, reexec b
 		}
 		cd := openCold(tr.rec.m)
 		for bi, root := range tr.roots {
+			if tr.ack[bi] == neverAcked {
+				continue
+			}
 			f := coldCheck(cd, root, tr.snaps[bi])
 			if f == nil {
 				if tr.retried[bi] {
@@ -1234,7 +1286,7 @@ func checkFaults(h History, scale, mapVar, nwrites int, baseErr string, reexec b
 			if strings.HasPrefix(f.kind, "differs:") {
 				kind = "acked-root-" + f.kind
 			}
-			sig := "C03:after-write-error:" + strings.TrimPrefix(kind, "acked-root-")
+			sig := "C03:after-write-error:" + strings.TrimPrefix(kind, "acked-root-") + h.sigSuffix()
 			if seen[sig] {
 				continue
 			}
@@ -1433,6 +1485,31 @@ func run(c *fw.Ctx) {
 				return false
 			}
 		}
+		// Sibling states: S1 and S2 on the same parent in one process (one in-memory node database),
+		// S1 never acknowledged (disk commit failed as a whole / never issued), S2 committed after it;
+		// both orders arise from the template enumeration.  Quick: siblings on the empty state;
+		// thorough also siblings on a committed first block.
+		sib := -1
+		switch {
+		case len(h0.Blocks) == 2 && h0.Blocks[1].Parent == -1:
+			sib = 0
+		case len(h0.Blocks) == 3 && h0.Blocks[2].Parent == 0:
+			sib = 1
+		}
+		if sib >= 0 && nbig == 0 {
+			for _, disk := range []string{"fail", "skip"} {
+				for _, fin := range []string{"", "ir1"} {
+					if len(h0.Blocks) == 3 && fin == "" {
+						continue
+					}
+					h := History{Blocks: append([]Block{}, h0.Blocks...), Fin: fin}
+					h.Blocks[sib].Disk = disk
+					if !visitOne(h, nbig) {
+						return false
+					}
+				}
+			}
+		}
 		return true
 	})
 	if capped {
@@ -1516,8 +1593,8 @@ func replay(c *fw.Ctx, raw json.RawMessage) {
 func main() {
 	fw.Main(fw.Check{
 		ID: "C03", Level: "fault_enumeration",
-		Rule: "evaluation = (history incl. finalisation variant, write-granularity, map-order variant, prefix p of the physical write log) with all acknowledged and all on-disk-top-node roots cold-opened and walked, " +
-			"plus (history, failing write p) re-commit cases; histories = all sequences of 1..3 block templates (quick 17, thorough 28 templates (3 / 4 with relational variable-length storage keys: prefix chains, empty key, nibble neighbours, 1/40-byte keys x 1/40-byte values, SetFT/AddFT names), among them 4 / 8 with in-block Snapshot/RevertToSnapshot activity and 2 / 4 that create storage-only accounts (nonce 0, no code) or merely load them without dirtying; at most 1 / 2 oversized blocks) x fork shapes x finalisation variant applied by every block between its mutations and the commit (nothing | IntermediateRoot(true|false) | Finalise(true|false) | IntermediateRoot after every mutation | Commit twice | Commit(false); all 8 for histories of <= 2 blocks, 3-block histories run in the production order IntermediateRoot(true)+Commit(true)) (2 blocks: second on the first or on the empty state; 3 blocks: a chain, thorough also the last block on the first = sibling fork committed after its competitor, unless an oversized block is involved); " +
+		Rule: "evaluation = (history incl. finalisation variant and sibling variant [a sibling state of the last block that was state-committed into the shared in-memory node database but whose disk commit failed as a whole or was never issued], write-granularity, map-order variant, prefix p of the physical write log) with all acknowledged and all on-disk-top-node roots cold-opened and walked, " +
+			"plus (history, failing write p) re-commit cases; histories = all sequences of 1..3 block templates (quick 18, thorough 29 templates (3 / 4 with relational variable-length storage keys: prefix chains, empty key, nibble neighbours, 1/40-byte keys x 1/40-byte values, SetFT/AddFT names), among them 4 / 8 with in-block Snapshot/RevertToSnapshot activity and 2 / 4 that create storage-only accounts (nonce 0, no code) or merely load them without dirtying; at most 1 / 2 oversized blocks) x fork shapes x finalisation variant applied by every block between its mutations and the commit (nothing | IntermediateRoot(true|false) | Finalise(true|false) | IntermediateRoot after every mutation | Commit twice | Commit(false); all 8 for histories of <= 2 blocks, 3-block histories run in the production order IntermediateRoot(true)+Commit(true)) (2 blocks: second on the first or on the empty state; 3 blocks: a chain, thorough also the last block on the first = sibling fork committed after its competitor, unless an oversized block is involved); " +
 			"non-trivial = prefix strictly inside one commit (not at a block boundary, not 0) or a write fault that was actually injected",
 		Assumptions: []string{
 			"one Batch.Write / Put / Delete is atomic and ordered (LevelDB journal semantics); torn writes inside one batch and fsync loss on power failure are outside the bound",
